@@ -14,6 +14,8 @@ CONSTANTS
 VARIABLES kind, sc, done
 vars == <<kind, sc, done>>
 
+EdgeBytes == {9, 10, 12, 13, 32, 0, 255}
+
 Init ==
     /\ done = FALSE
     /\ \/ kind = "writer" /\ sc \in [shape : WriterShapes]
@@ -22,6 +24,10 @@ Init ==
        \* long files: the item sequence repeated `rep' times (data well beyond any I/O buffer size)
        \/ kind = "reader" /\ sc \in [t : {"f8", "i2", "u1", "f4"}, order : {"<", ">"}, version : {1, 2},
                                       sp : {CHOOSE x \in ReaderSpellings : TRUE}, rep : {173}]
+       \* data whose first and last bytes LOOK like text (blank, tab, LF, FF, CR) or like padding (0, 255): a reader
+       \* may not treat any byte of the data section as anything but data
+       \/ kind = "reader" /\ sc \in [t : ReaderTypes, order : {"<", ">"}, version : {1},
+                                      sp : {CHOOSE x \in ReaderSpellings : TRUE}, rep : {1}, edge : EdgeBytes]
        \/ kind = "reject" /\ sc \in [descr : Unsupported, fortran : {FALSE}] \cup [descr : {"<f8", "<i4"}, fortran : {TRUE}]
        \/ kind = "damage" /\ sc \in DamageCases
 
@@ -45,8 +51,19 @@ Flatten(ss) == IF ss = <<>> THEN <<>> ELSE Head(ss) \o Flatten(Tail(ss))
 ReaderItems(t) == SeqOfSet(ItemPatterns(t))          \* items as little-endian byte patterns
 FileItem(order, le) == IF order = ">" THEN Reverse(le) ELSE le
 
+(* items (as little-endian patterns) whose FILE bytes are <<e, 0, .., 0>>, all e, and <<0, .., 0, e>> *)
+EdgeItems(t, order, e) ==
+    LET n == ItemSize(t)
+        firstFile == [i \in 1..n |-> IF i = 1 THEN e ELSE 0]
+        lastFile == [i \in 1..n |-> IF i = n THEN e ELSE 0]
+        le(fb) == IF order = ">" THEN Reverse(fb) ELSE fb
+    IN  [head |-> <<le(firstFile), Fill(n, e)>>, tail |-> <<Fill(n, e), le(lastFile)>>]
+
 ReaderFile ==
-    LET items == ReaderItems(sc.t)
+    LET plain == ReaderItems(sc.t)
+        items == IF "edge" \in DOMAIN sc
+                 THEN LET x == EdgeItems(sc.t, sc.order, sc.edge) IN x.head \o plain \o x.tail
+                 ELSE plain
         n == Len(items)
         sh == ReaderShapesFor(n * sc.rep)
         dict == SpelledDict((IF sc.order = "|" /\ ItemSize(sc.t) > 1 THEN "<" ELSE sc.order) \o sc.t, FALSE, sh, sc.sp)
@@ -97,5 +114,6 @@ Emit ==
                     header |-> NumpyHeader(1, SpelledDict(sc.descr, sc.fortran, <<2>>,
                         [quote |-> "'", comma |-> ", ", colon |-> ": ", trailing |-> TRUE, order |-> <<1, 2, 3>>, tupleComma |-> FALSE]))]))
           [] kind = "damage" ->
-                PrintT("REPLAY " \o ToJson([family |-> "npy", kind |-> "damage", file |-> DamageFile, max_ext |-> 16]))
+                PrintT("REPLAY " \o ToJson([family |-> "npy", kind |-> "damage", file |-> DamageFile, max_ext |-> 16,
+                                            fills |-> SeqOfSet(ExtFills)]))
 =============================================================================
